@@ -820,6 +820,13 @@ impl Error
 		}
 	}
 
+	/// The primary location of this error (verification hook).
+	#[cfg(feature = "penne_verif")]
+	pub fn verif_location(&self) -> &Location
+	{
+		self.location()
+	}
+
 	#[cfg_attr(coverage, no_coverage)]
 	#[cfg(not(tarpaulin_include))]
 	pub fn build_report(
